@@ -170,10 +170,10 @@ macro_rules! ver {
 }
 //@begin prop=C17 tier=quick mem=24 timeout=1800 desc="V: blech32 decoder's checksum validation == reference polymod over hrp expansion and ALL data symbols (14 symbolic symbols, 12 of them checksum) for the built-in blinded hrps"
 ver!(verifies_el_blech32, b"el", false);
+//@end
+//@begin prop=C17 tier=thorough mem=24 timeout=3000 desc="V: remaining hrp/variant combinations"
 ver!(verifies_lq_blech32m, b"lq", true);
 ver!(verifies_tlq_blech32, b"tlq", false);
-//@end
-//@begin prop=C17 tier=thorough mem=8 timeout=3000 desc="V: remaining hrp/variant combinations"
 ver!(verifies_el_blech32m, b"el", true);
 ver!(verifies_lq_blech32, b"lq", false);
 ver!(verifies_tlq_blech32m, b"tlq", true);
